@@ -641,8 +641,24 @@ class Evaluator:
     def kwterms(self, kwargs):
         return [App("kw", (Const(k), v)) for k, v in sorted(kwargs.items())]
 
+    LOG_METHODS = ("meth:debug", "meth:info", "meth:warning", "meth:warn", "meth:error", "meth:critical", "meth:exception", "meth:log")
+
+    @classmethod
+    def is_logging_call(cls, term) -> bool:
+        """logger.debug(...) and friends on an object obtained from logging.getLogger: diagnostic output, never part of a result."""
+        if not isinstance(term, App):
+            return False
+        if term.op in ("call:logging.getLogger", "call:logging.debug", "call:logging.info", "call:logging.warning", "call:logging.error",
+                       "call:logging.log", "call:logging.exception", "call:logging.critical"):
+            return True
+        if term.op in cls.LOG_METHODS and term.args:
+            r = term.args[0]
+            return isinstance(r, App) and r.op == "call:logging.getLogger"
+        return False
+
     def record_call(self, term, st):
-        st.effects.append(App("eff:call", (term,), term.node if isinstance(term, App) else None))
+        op = "eff:log" if self.is_logging_call(term) else "eff:call"
+        st.effects.append(App(op, (term,), term.node if isinstance(term, App) else None))
 
     def call_super(self, name, args, kwargs, e, st, fr):
         if fr.self_cls is None or fr.func is None or fr.func.cls is None:
